@@ -97,7 +97,10 @@ def T_user_lmi(rng, v=0):
     t = Expression()
     sym = v % 2 == 0
     a, b = (x1 - xs) ** 2, (x0 - xs) ** 2
-    if sym:
+    if sym and (v // 8) % 2 == 1:
+        o = t - 0.5                                # a CONSTANT in the off-diagonal entries (same object at both places)
+        mat = [[b, o], [o, 1]]
+    elif sym:
         mat = [[b, t], [t, 1]]
     else:
         mat = [[b, t / 2 + (x0 - xs) * (x1 - xs) / 2], [(x0 - xs) * (x1 - xs) - t + t * 1.5 - (x0 - xs) * (x1 - xs) / 2, 1]]
@@ -180,6 +183,32 @@ def T_composite(rng, v=0):
         F.add_constraint((x1 - xs) ** 2 <= 4)
     p.set_performance_metric((x1 - xs) ** 2)
     return p, dict(points=[x0, x1, xs, y], exprs=[(x1 - xs) ** 2], funcs=[f1, f2, F])
+
+
+def T_duplicates(rng, v=0):
+    """the SAME Constraint object registered twice (initial condition + constraint), or the same PSDMatrix object added twice (second time to name it)"""
+    from PEPit import PEP, Expression
+    from PEPit.functions import SmoothStronglyConvexFunction
+    mu, L = 0.1, 1.0
+    p = PEP()
+    f = p.declare_function(SmoothStronglyConvexFunction, mu=mu, L=L)
+    xs = f.stationary_point()
+    x0 = p.set_initial_point()
+    c = (x0 - xs) ** 2 <= 1
+    p.set_initial_condition(c)
+    x1 = x0 - rng.choice([1.0, 1.5]) / L * f.gradient(x0)
+    lmis = []
+    if v % 2 == 0:
+        p.add_constraint(c)                              # same object, second registration
+        p.set_performance_metric((x1 - xs) ** 2)
+        exprs = [(x1 - xs) ** 2]
+    else:
+        t = Expression()
+        m = p.add_psd_matrix([[(x1 - xs) ** 2, t], [t, 1]])
+        p.add_psd_matrix(m, name='bound')                # same object, second registration
+        p.set_performance_metric(t)
+        exprs, lmis = [t], [m]
+    return p, dict(points=[x0, x1, xs], exprs=exprs, funcs=[f], lmis=lmis, duplicates=True)
 
 
 def T_qg(rng, v=0):
@@ -274,7 +303,13 @@ def T_blocks(rng, v=0):
     g0 = f.gradient(x0)
     x1 = x0 - 1 / Ls[0] * part.get_block(g0, 0)
     p.set_performance_metric(f(x1) - f(xs))
-    return p, dict(points=[x0, x1, xs, part.get_block(x0 - xs, d - 1)], exprs=[f(x1) - f(xs)], funcs=[f], partitions=[part])
+    declared = []
+    if v % 2 == 1:
+        # a constraint the USER puts on the partition (binding: the first block of x0 - xs is small)
+        c = part.get_block(x0 - xs, 0) ** 2 <= 0.25
+        part.add_constraint(c)
+        declared.append(c)
+    return p, dict(points=[x0, x1, xs, part.get_block(x0 - xs, d - 1)], exprs=[f(x1) - f(xs)], funcs=[f], partitions=[part], declared=declared)
 
 
 def T_linear(rng, v=0):
@@ -365,7 +400,7 @@ def T_unbounded(rng, v=0):
 
 
 TEMPLATES = [T_gd_ssc, T_metrics, T_prox_convex, T_user_lmi, T_asym_lmi, T_quadratic, T_composite, T_qg, T_operator, T_blocks, T_linear, T_inexact, T_nonsmooth]
-ALL = {t.__name__: t for t in TEMPLATES + [T_unbounded, T_scaled]}
+ALL = {t.__name__: t for t in TEMPLATES + [T_unbounded, T_scaled, T_duplicates]}
 
 
 def build(name, seed):
